@@ -1,5 +1,6 @@
 //! Generators: key pools, printer of the modelled configuration fragment,
 //! physically consistent histories.
+pub mod cfg;
 pub mod hist;
 
 use crate::model::*;
